@@ -1031,7 +1031,7 @@ def to_lean(inv):
 
 if __name__ == '__main__':
     import json, sys
-    r = scan(sys.argv[1] if len(sys.argv) > 1 else '/repo/include')
+    r = scan(sys.argv[1] if len(sys.argv) > 1 else os.path.join(os.environ.get('VERIF_REPO', '/repo'), 'include'))
     for e in r['inventory']:
         print(f"{e['cls']:18s} {e['kind']:14s} {'const' if e['const'] else '     '} {e['name']}   [{e['file']}:{e['line']}]  writers={e['writers']}")
         for w in e['writes']:
